@@ -456,6 +456,8 @@ fn run_c20(args: &Args) -> i32 {
         // (the one declaration of known finding K2 is told apart from every other unsatisfied bound)
         let key = match id.map(|i| &built.recvs[i]) {
             Some(r) if r.inner_skip && r.inner_foreign && e.code == "E0277" => format!("{key}:skip-on-the-field-of-a-newtype-over-a-type-without-FromMeta"),
+            // (... and the one of K3)
+            Some(r) if r.inner_multiple && e.code == "E0277" => format!("{key}:multiple-on-the-field-of-a-newtype"),
             _ => key,
         };
         c.violation(
